@@ -21,7 +21,7 @@ for p in props:
         "engine": "coq-proof+correspondence",
         "level_claimed": {"category": "proof", "text": spec["level_text"], "design_ref": spec.get("design_ref", "DESIGN.md §4 " + pid)},
         "level_note": spec["level_note"],
-        "technique": spec.get("technique", "Coq 8.16 theorems about a Gallina model; model tied to the code by a regenerated table translator and a vm_compute correspondence check against the instrumented crate"),
+        "technique": spec.get("technique", "Coq 8.16 theorems about a Gallina model; model tied to the code by a translator re-run on every check (tables, and the control structure of the anchored functions extracted and interpreted in Coq, proved equal to the model) and a vm_compute correspondence check against the instrumented crate"),
     })
 m = {
     "version": 1,
